@@ -8,6 +8,7 @@
 -/
 import EG.Model.JoinGuards
 import EG.Props.C02.JoinsBBox
+import EG.Props.C02.JoinsBBoxAlign
 namespace EG.C02.GuardBitsSpec
 open EG EG.Joins EG.C02.JoinsBBox
 
@@ -120,5 +121,50 @@ theorem triOutlineGuard_bit_iff (t : Tri) (style : TriStyle) :
 theorem triTopGuard_bit_iff (t : Tri) : GuardBits.triTopGuard t = true ↔ TriTopGuard t := by
   unfold GuardBits.triTopGuard TriTopGuard
   simp
+
+/-- For an Outside stroke (`i32` vertices) the driver's bit for `TriStrokeGuard` is the guard
+`TriOutsideStrokeGuard` of `triangle_outside_stroke_in_bounding_box_partial`
+(EG/Props/C02/JoinsBBoxAlign.lean): the vertex clause holds by proof. -/
+theorem triOutsideStrokeGuard_bit_iff (t : Tri) (style : TriStyle)
+    (hal : style.strokeAlignment = .outside) (hi : TriI32 t) :
+    GuardBits.triStrokeGuard t style = true ↔ TriOutsideStrokeGuard t style :=
+  (triStrokeGuard_bit_iff t style).trans (triStrokeGuard_outside_iff t style hal hi)
+
+/-- Where the driver's bit for `TriOutlineGuard` is set on an Inside stroke, the weaker guard
+`TriInsideGuard` of `triangle_inside_in_bounding_box_of_inner_corners` holds. -/
+theorem triInsideGuard_of_bit (t : Tri) (style : TriStyle) (hal : style.strokeAlignment = .inside)
+    (h : GuardBits.triOutlineGuard t style = true) : TriInsideGuard t style.strokeWidth :=
+  triInsideGuard_of_outline t style hal ((triOutlineGuard_bit_iff t style).mp h)
+
+/-- The driver's sixth bit of a `thick.triangle` op (`bit 5` in the evidence) is `TriStrokeColumnsGuard`,
+the guard of `triangle_stroke_in_bounding_box_of_columns_partial`. -/
+theorem triStrokeColumnsGuard_bit_iff (t : Tri) (style : TriStyle) :
+    GuardBits.triStrokeColumnsGuard t style = true ↔ TriStrokeColumnsGuard t style := by
+  unfold GuardBits.triStrokeColumnsGuard TriStrokeColumnsGuard
+  rw [guardBits_closedSegments3]
+  generalize closedSegments3 t.sortedClockwise style.strokeWidth style.strokeAlignment.toOffset = o
+  rcases o with _ | (_ | ⟨a, _ | ⟨b, _ | ⟨c, _ | ⟨d, r⟩⟩⟩⟩)
+  · simp
+  · simp
+  · simp
+  · simp
+  · simp only [guardBits_adjOK, Bool.and_eq_true, decide_eq_true_eq, Bool.or_eq_true,
+      Bool.not_eq_true']
+    constructor
+    · rintro ⟨⟨⟨⟨h0, h1⟩, h2⟩, h3⟩, h4⟩
+      refine ⟨h0, h1, h2, h3, ?_⟩
+      intro hf
+      rcases h4 with h4 | h4
+      · rw [h4] at hf; cases hf
+      · obtain ⟨⟨⟨⟨⟨a1, a2⟩, b1⟩, b2⟩, c1⟩, c2⟩ := h4
+        exact ⟨⟨a1, a2⟩, ⟨b1, b2⟩, ⟨c1, c2⟩⟩
+    · rintro ⟨h0, h1, h2, h3, h4⟩
+      refine ⟨⟨⟨⟨h0, h1⟩, h2⟩, h3⟩, ?_⟩
+      cases hfc : style.fillColor.isSome with
+      | false => exact Or.inl rfl
+      | true =>
+        obtain ⟨⟨a1, a2⟩, ⟨b1, b2⟩, ⟨c1, c2⟩⟩ := h4 hfc
+        exact Or.inr ⟨⟨⟨⟨⟨a1, a2⟩, b1⟩, b2⟩, c1⟩, c2⟩
+  · simp
 
 end EG.C02.GuardBitsSpec
